@@ -99,6 +99,10 @@ def handle (op : String) (j : Json) : Option Json :=
     match Spec.Rev.branchRev h (getStrD j "label") with
     | none => some (obj [("undefined", Json.bool true)])
     | some br => some (obj [("holds", Json.bool (Spec.Rev.downLineage h br (getStrD j "rev")))])
+  | "rev.spec.belowheads" =>
+    let h := histOfJson j
+    let rs := (getStrList j "results").map (fun x => if x == "base" then none else some x)
+    some (obj [("holds", Json.bool (Spec.Rev.belowHeadsOk h (getStr j "label") (getNatD j "n") rs))])
   | "rev.spec.relup" =>
     let h := histOfJson j
     match Spec.Rev.relUpOk h (getStrList j "rows") (getStr j "label") (getNatD j "n") (getStrD j "result") with
